@@ -30,7 +30,7 @@ theorem restore_exact {cfg : Cfg} (hc : CfgOK cfg) {s t : State} (hs : WF cfg s)
   exact ⟨rfl, obs_restoredState s t, rfl, restoredBuiltins_eq s t, WF_restoredState t hs⟩
 
 example : CfgOK liveCfg ∧ WF liveCfg liveInit ∧
-    WF liveCfg (stepOp liveCfg (.enableLR none true) (stepOp liveCfg (.enablePackrat (some 64) false) liveInit).1).1 :=
+    WF liveCfg (stepOp liveCfg (.enableLR none true 0) (stepOp liveCfg (.enablePackrat (some 64) false 0) liveInit).1).1 :=
   ⟨⟨by decide, by decide, by decide⟩, ⟨by decide, by decide, by decide, by decide⟩,
    ⟨by decide, by decide, by decide, by decide⟩⟩
 
@@ -105,10 +105,10 @@ theorem restore_total_and_exact {cfg : Cfg} (hc : CfgOK cfg) (m : Mach) (hm : Ma
 /-- non-vacuity: the design-time finding F3 as a command sequence (enter with packrat on, switch to left
     recursion with `force=True` inside, plus a nested context switching back) is `Balanced`, starts
     from a `MachOK` machine, and really changes the settings inside -/
-def exM0 : Mach := ⟨(stepOp liveCfg (.enablePackrat (some 64) false) liveInit).1, [], false, none⟩
+def exM0 : Mach := ⟨(stepOp liveCfg (.enablePackrat (some 64) false 0) liveInit).1, [], false, none⟩
 def exBody : List Cmd :=
-  [.op (.enableLR none true), .enter false, .op (.enablePackrat none true), .op (.setDefaultWs " "), .exit true,
-   .restoreLast, .enter true, .op (.setKwChars "abc"), .exit false,
+  [.op (.enableLR none true 0), .enter false, .op (.enablePackrat none true 0), .op (.setDefaultWs " " 0), .exit true,
+   .restoreLast, .enter true, .op (.setKwChars "abc" 0), .exit false,
    .op (.compatAssign "collect_all_And_tokens" false)]
 
 example : Balanced exBody ∧ obs (run liveCfg (.enter false :: exBody) exM0).st ≠ obs exM0.st ∧
@@ -136,8 +136,8 @@ theorem live_restore_total_and_exact (pre body : List Cmd) (hb : Balanced body) 
     `unsynced_builtin_whitechars_not_restored`). -/
 theorem live_builtins_restored_though_unsynced :
     ¬ Synced liveInit ∧
-    (run liveCfg [.enter false, .op (.setDefaultWs " ")] ⟨liveInit, [], false, none⟩).st.builtins ≠ liveInit.builtins ∧
-    (run liveCfg [.enter false, .op (.setDefaultWs " "), .exit false] ⟨liveInit, [], false, none⟩).st.builtins = liveInit.builtins := by
+    (run liveCfg [.enter false, .op (.setDefaultWs " " 0)] ⟨liveInit, [], false, none⟩).st.builtins ≠ liveInit.builtins ∧
+    (run liveCfg [.enter false, .op (.setDefaultWs " " 0), .exit false] ⟨liveInit, [], false, none⟩).st.builtins = liveInit.builtins := by
   refine ⟨?_, by decide, by decide⟩
   intro h
   have := h ⟨['\t', '\r', ' '], true, false, false⟩ (by decide) rfl
@@ -178,7 +178,7 @@ example : (enablePackrat (some 8) false (enableLR none false liveInit).1).2 = so
 
 theorem Excl_stepOp (cfg : Cfg) (o : Op) {s : State} (h : Excl s) : Excl (stepOp cfg o s).1 := by
   cases o with
-  | enablePackrat sz f =>
+  | enablePackrat sz f r =>
     simp only [stepOp, enablePackrat]
     split
     · simp only [enablePackratTail, disableMemo, resetCache]
@@ -190,7 +190,7 @@ theorem Excl_stepOp (cfg : Cfg) (o : Op) {s : State} (h : Excl s) : Excl (stepOp
         split
         · exact h
         · cases sz <;> simp_all [Excl]
-  | enableLR cap f =>
+  | enableLR cap f r =>
     simp only [stepOp, enableLR]
     split
     · simp only [enableLRTail, disableMemo, resetCache]
@@ -204,7 +204,7 @@ theorem Excl_stepOp (cfg : Cfg) (o : Op) {s : State} (h : Excl s) : Excl (stepOp
         cases cap with
         | none => simp_all [Excl]
         | some n => simp only; split <;> simp_all [Excl]
-  | disableMemo => exact Excl_disableMemo s
+  | disableMemo r => exact Excl_disableMemo s
   | copyExpr i => simp only [stepOp]; split <;> exact h
   | wrapExpr i => simp only [stepOp]; split <;> exact h
   | assignFwd i j => simp only [stepOp]; split <;> exact h
@@ -531,7 +531,7 @@ theorem mem_ws_of_default (c : String) (x : Char) : x ∈ pySet c ↔ x ∈ c.to
     removes the longest prefix of characters of `c`. -/
 theorem leave_copy_ignore_follows_default (cfg : Cfg) (c : String) (s : State) (i : Nat) (e : Expr)
     (hi : s.users[i]? = some e) (hcd : e.copyDef = true) (hf : e.fwdEmpty = false) :
-    let s' := (run cfg [.op (.leaveWs i), .op (.setDefaultWs c), .op (.copyExpr i),
+    let s' := (run cfg [.op (.leaveWs i), .op (.setDefaultWs c 0), .op (.copyExpr i),
                          .op (.ignoreWs s.users.length)] ⟨s, [], false, none⟩).st
     s'.users = modifyNth exprLeaveWs i s.users ++ [⟨pySet c, true, false, true⟩] ∧
     s'.defaultWs = c ∧
@@ -580,7 +580,7 @@ theorem leave_copy_ignore_follows_default (cfg : Cfg) (c : String) (s : State) (
 
 example :
     let s := (stepOp liveCfg .newExpr liveInit).1
-    (run liveCfg [.op (.leaveWs 0), .op (.setDefaultWs " \t"), .op (.copyExpr 0), .op (.ignoreWs 1)]
+    (run liveCfg [.op (.leaveWs 0), .op (.setDefaultWs " \t" 0), .op (.copyExpr 0), .op (.ignoreWs 1)]
       ⟨s, [], false, none⟩).st.users
       = [⟨['\t', '\n', '\r', ' '], true, false, false⟩, ⟨['\t', ' '], true, false, true⟩] ∧
     preParseWs ⟨['\t', ' '], true, false, true⟩ "\n  abc".toList = "\n  abc".toList ∧
@@ -605,7 +605,7 @@ theorem copy_after_exit_follows_entry_default {cfg : Cfg} (hc : CfgOK cfg) (m : 
 /-- non-vacuity / the second half of the C19-4 demo: an expression built and `leave_whitespace()`d inside a block
     that set the default to `" \t"`; copied after the block and told to skip again, it skips the entry default -/
 example :
-    (run liveCfg [.enter false, .op (.setDefaultWs " \t"), .op .newExpr, .op (.leaveWs 0), .exit false,
+    (run liveCfg [.enter false, .op (.setDefaultWs " \t" 0), .op .newExpr, .op (.leaveWs 0), .exit false,
                   .op (.copyExpr 0), .op (.ignoreWs 1)] ⟨liveInit, [], false, none⟩).st.users
       = [⟨['\t', ' '], true, false, false⟩, ⟨['\t', '\n', '\r', ' '], true, false, true⟩] := by decide
 
@@ -619,5 +619,139 @@ theorem alt_ws_scope (cfg : Cfg) (c : String) (s : State) (i : Nat) (e : Expr) (
 
 example : (stepOp liveCfg (.newAlt 0) (stepOp liveCfg (.leaveWs 0) (stepOp liveCfg .newExpr liveInit).1).1).1.users
     = [⟨['\t', '\n', '\r', ' '], true, false, false⟩, ⟨['\t', '\n', '\r', ' '], true, false, false⟩] := by decide
+
+/-! ## 6. a setting is ONE cell read by all classes: the route of a setter call is irrelevant -/
+
+/-- **route_irrelevant.**  `set_default_whitespace_chars`, `set_default_keyword_chars`, `inline_literals_using`,
+    `enable_packrat`, `enable_left_recursion`, `disable_memoization`, `reset_cache` are staticmethods that assign to
+    the base class by name; called through any class of the hierarchy, an instance, or the camelCase synonym
+    (route `r`), they produce the same state and the same exception. -/
+theorem route_irrelevant (cfg : Cfg) (o : Op) (r : Nat) (s : State) :
+    stepOp cfg (o.withRoute r) s = stepOp cfg o s := by
+  cases o <;> rfl
+
+/-- two command sequences that differ only in the routes of their setter calls -/
+inductive Rerouted : List Cmd → List Cmd → Prop
+  | nil : Rerouted [] []
+  | same (c : Cmd) {cs cs' : List Cmd} : Rerouted cs cs' → Rerouted (c :: cs) (c :: cs')
+  | op (o : Op) (r : Nat) {cs cs' : List Cmd} : Rerouted cs cs' → Rerouted (.op o :: cs) (.op (o.withRoute r) :: cs')
+
+/-- whole histories: the machine (settings, built-ins, user expressions, saved contexts) after a history does not
+    depend on the routes through which its setters were called -/
+theorem run_route_irrelevant (cfg : Cfg) {cs cs' : List Cmd} (h : Rerouted cs cs') (m : Mach) :
+    run cfg cs m = run cfg cs' m := by
+  induction h generalizing m with
+  | nil => rfl
+  | same c _ ih => simp only [run]; exact ih _
+  | op o r _ ih =>
+    simp only [run]
+    have : stepCmd cfg (.op (o.withRoute r)) m = stepCmd cfg (.op o) m := by
+      simp only [stepCmd, route_irrelevant]
+    rw [this]
+    exact ih _
+
+example : Rerouted
+    [.enter false, .op (.setKwChars "abc" 0), .op (.enablePackrat none true 0), .exit false]
+    [.enter false, .op (.setKwChars "abc" 3), .op (.enablePackrat none true 7), .exit false] :=
+  .same _ (.op (.setKwChars "abc" 0) 3 (.op (.enablePackrat none true 0) 7 (.same _ .nil)))
+
+theorem enablePackratTail_shadows (sz : Option Int) (s : State) : (enablePackratTail sz s).shadows = s.shadows := by
+  unfold enablePackratTail
+  split
+  · rfl
+  · cases sz <;> rfl
+
+theorem enableLRTail_shadows (cap : Option Int) (s : State) : (enableLRTail cap s).1.shadows = s.shadows := by
+  unfold enableLRTail
+  cases cap with
+  | none => rfl
+  | some n => simp only; split <;> rfl
+
+/-- no operation gives a subclass an own copy of a setting attribute -/
+theorem stepOp_shadows (cfg : Cfg) (o : Op) (s : State) : (stepOp cfg o s).1.shadows = s.shadows := by
+  cases o with
+  | enablePackrat sz f r =>
+    simp only [stepOp, enablePackrat]
+    split
+    · exact enablePackratTail_shadows sz (disableMemo s)
+    · split
+      · rfl
+      · exact enablePackratTail_shadows sz s
+  | enableLR cap f r =>
+    simp only [stepOp, enableLR]
+    split
+    · exact enableLRTail_shadows cap (disableMemo s)
+    · split
+      · rfl
+      · exact enableLRTail_shadows cap s
+  | copyExpr i => simp only [stepOp]; split <;> rfl
+  | wrapExpr i => simp only [stepOp]; split <;> rfl
+  | assignFwd i j => simp only [stepOp]; split <;> rfl
+  | newAlt i => simp only [stepOp]; split <;> rfl
+  | _ => rfl
+
+/-- **shadows_never_created.**  Whatever is done through the modelled API (any setters through any routes, contexts
+    entered / left / restored again in any order), the set of classes with a class-local copy of a setting
+    attribute stays what it was -/
+theorem shadows_never_created {cfg : Cfg} (hc : CfgOK cfg) : ∀ (cs : List Cmd) {m : Mach}, MachOK cfg m →
+    (run cfg cs m).st.shadows = m.st.shadows
+  | [], _, _ => rfl
+  | c :: cs, m, hm => by
+    simp only [run]
+    rw [shadows_never_created hc cs (MachOK_step hc c hm)]
+    cases c with
+    | op o => simp only [stepCmd]; exact stepOp_shadows cfg o m.st
+    | enter r => simp only [stepCmd, saveRaises_of_WF hm.wf, Bool.false_eq_true, if_false]
+    | exit v =>
+      simp only [stepCmd]
+      cases hstk : m.stack with
+      | nil => rfl
+      | cons sv rest =>
+        simp only
+        obtain ⟨s0, hs0, rfl⟩ := hm.frames sv (by rw [hstk]; simp)
+        rw [restore_raw hc hs0 hm.wf]
+        rfl
+    | restoreLast =>
+      simp only [stepCmd]
+      cases hl : m.last with
+      | none => rfl
+      | some sv =>
+        simp only
+        obtain ⟨s0, hs0, rfl⟩ := hm.lastOK sv hl
+        rw [restore_raw hc hs0 hm.wf]
+        rfl
+
+/-- **one cell for the live package**: after import no subclass has an own copy of a setting attribute (generated
+    fact `liveShadows`), so after *any* history every class of the hierarchy reads exactly the settings of the base
+    class — `CaselessKeyword.DEFAULT_KEYWORD_CHARS` is `Keyword.DEFAULT_KEYWORD_CHARS`, `Word._packratEnabled` is
+    `ParserElement._packratEnabled`, ... -/
+theorem live_one_cell (cs : List Cmd) (cls : String) :
+    classView cls (run liveCfg cs ⟨liveInit, [], false, none⟩).st
+      = some (obs (run liveCfg cs ⟨liveInit, [], false, none⟩).st) := by
+  have hc : CfgOK liveCfg := ⟨by decide, by decide, by decide⟩
+  have h0 : MachOK liveCfg ⟨liveInit, [], false, none⟩ :=
+    ⟨⟨by decide, by decide, by decide, by decide⟩, by simp, rfl, by simp⟩
+  have hs := shadows_never_created hc cs h0
+  have hl : liveInit.shadows = [] := by decide
+  simp only [classView, hs, hl, List.any_nil, Bool.false_eq_true, if_false]
+
+/-- **restore_every_class_view.**  Leaving a context restores the settings *as seen from every class*: for any
+    reachable machine, any well-nested body (setters through any routes) and any class, what the class reads after
+    the block is what it read on entry. -/
+theorem restore_every_class_view {cfg : Cfg} (hc : CfgOK cfg) (m : Mach) (hm : MachOK cfg m)
+    (body : List Cmd) (hb : Balanced body) (r v : Bool) (cls : String) :
+    classView cls (run cfg (.enter r :: body ++ [.exit v]) m).st = classView cls m.st := by
+  have ho := (restore_total_and_exact hc m hm body hb r v).2.2.1
+  have hs := shadows_never_created hc (.enter r :: body ++ [.exit v]) hm
+  simp only [classView, hs, ho]
+
+/-- the C19-5 history: the keyword characters changed through `CaselessKeyword` (route 1) inside a block, and through
+    `Keyword` in a nested one; afterwards every class reads the entry value again -/
+example :
+    let m := run liveCfg [.enter false, .op (.setKwChars "abc" 1), .enter false, .op (.setKwChars "xyz" 0), .exit false]
+      ⟨liveInit, [], false, none⟩
+    (obs m.st).kwChars = "abc" ∧ classView "CaselessKeyword" m.st = some (obs m.st) ∧
+    classView "CaselessKeyword" (run liveCfg [.exit false] m).st = some (obs liveInit) := by
+  decide +kernel
 
 end PP.Settings
